@@ -1,6 +1,7 @@
 package checks
 
 import (
+	"bytes"
 	"fmt"
 	"net/http"
 	"strings"
@@ -44,6 +45,11 @@ func runC07(x *mc.X) {
 	}
 	nVar := mc.Pick(x, "target-variants", []int{0, 1, 3})
 	rounds := mc.Pick(x, "rounds", []int{1, 2})
+	// the store is not in mint condition: one variant's entry is gone (evicted by an external clean-up), or one Delete fails
+	damage := mc.Pick(x, "store-damage", []string{"none", "first variant's entry evicted", "second variant's entry evicted", "first delete fails", "second delete fails"})
+	if damage != "none" && !(nVar == 3 && rounds == 1 && status == 200 && (method == "POST" || method == "DELETE" || method == "FOO")) {
+		x.Skip()
+	}
 
 	w := world.New(world.Opt{})
 	defer w.Close()
@@ -92,7 +98,7 @@ func runC07(x *mc.X) {
 				store(u, "")
 			}
 		}
-		c07Round(x, w, round, method, status, target, locField, loc, nVar, &ents)
+		c07Round(x, w, round, method, status, target, locField, loc, nVar, &ents, damage)
 		if x.Failed() {
 			return
 		}
@@ -105,9 +111,37 @@ type c07Ent struct {
 	tok string
 }
 
-func c07Round(x *mc.X, w *world.W, round int, method string, status int, target, locField, loc string, nVar int, entsp *[]*c07Ent) {
+func c07Round(x *mc.X, w *world.W, round int, method string, status int, target, locField, loc string, nVar int, entsp *[]*c07Ent, damage string) {
 	ents := *entsp
 	world.Advance(secs(5))
+	var undeletable []byte // value under the key whose Delete was made to fail
+	switch damage {
+	case "first variant's entry evicted", "second variant's entry evicted":
+		e := ents[0]
+		if strings.HasPrefix(damage, "second") {
+			e = ents[1]
+		}
+		for _, k := range w.Conn.Keys() {
+			if v, _ := w.Conn.Peek(k); len(v) > 0 && v[0] != '[' && bytes.Contains(v, []byte(e.tok)) {
+				_ = w.Conn.Delete(k)
+			}
+		}
+	case "first delete fails", "second delete fails":
+		n, want := 0, 1
+		if strings.HasPrefix(damage, "second") {
+			want = 2
+		}
+		w.Conn.Fault = func(op *world.Op) (bool, []byte, error) {
+			if op.Kind == "del" {
+				if n++; n == want {
+					undeletable, _ = w.Conn.PeekNoLock(op.Key)
+					return true, nil, world.ErrInjected
+				}
+			}
+			return false, nil, nil
+		}
+		defer func() { w.Conn.Fault = nil }()
+	}
 
 	var h [][2]string
 	if loc != "" {
@@ -130,7 +164,8 @@ func c07Round(x *mc.X, w *world.W, round int, method string, status int, target,
 		x.Skip()
 	}
 	ou := w.Do(req)
-	logObs(x, fmt.Sprintf("%s %s (origin: %d %v)", method, target, status, h), ou)
+	w.Conn.Fault = nil
+	logObs(x, fmt.Sprintf("%s %s (origin: %d %v)%s", method, target, status, h, ifs(damage != "none", " store damage: "+damage)), ou)
 	if ou.Panic != nil {
 		return
 	}
@@ -151,12 +186,15 @@ func c07Round(x *mc.X, w *world.W, round int, method string, status int, target,
 		x.State(cls, e.url, fmt.Sprint(servedOld))
 		switch {
 		case e.url == c07T || (e.url == c07Sib && locSameOrigin):
+			if unsafe && success && servedOld && undeletable != nil && bytes.Contains(undeletable, []byte(e.tok)) {
+				continue // the store refused to delete exactly this entry
+			}
 			if unsafe && success && servedOld {
 				what := "target"
 				if e.url == c07Sib {
 					what = "same-origin " + locField + " URI"
 				}
-				x.Failf(fmt.Sprintf("not invalidated: %s method=%s%s", what, methodClass(method), ifs(round > 1, " (second invalidation of the same target)")), "after %s %s -> %d %v, GET %s %v is still answered from the store without validation: %s", method, target, status, h, e.url, e.hdr, o)
+				x.Failf(fmt.Sprintf("not invalidated: %s method=%s%s%s", what, methodClass(method), ifs(round > 1, " (second invalidation of the same target)"), ifs(damage != "none", " store damage: "+damage)), "after %s %s -> %d %v, GET %s %v is still answered from the store without validation: %s", method, target, status, h, e.url, e.hdr, o)
 			}
 		case e.url == c07Host || e.url == c07Port || e.url == c07HTTPS:
 			if !servedOld {
